@@ -4,6 +4,7 @@
 package yield
 
 import (
+	"fmt"
 	"math/rand"
 	"sync"
 	"sync/atomic"
@@ -70,3 +71,42 @@ func Hits() map[string]int64 {
 
 // Available reports whether the hooks are compiled in.
 const Available = true
+
+// Recovered is one panic a connection goroutine of the broker recovered from.
+type Recovered struct {
+	Site  string
+	Value string
+	Stack string
+}
+
+var (
+	recMu  sync.Mutex
+	recs   []Recovered
+	recSet bool
+)
+
+// WatchRecovered starts collecting the panics the broker's connection goroutines recover from (idempotent).
+func WatchRecovered() {
+	recMu.Lock()
+	defer recMu.Unlock()
+	if recSet {
+		return
+	}
+	recSet = true
+	server.SetVerifRecovered(func(site string, v interface{}, stack []byte) {
+		recMu.Lock()
+		if len(recs) < 1000 {
+			recs = append(recs, Recovered{Site: site, Value: fmt.Sprint(v), Stack: string(stack)})
+		}
+		recMu.Unlock()
+	})
+}
+
+// TakeRecovered returns and forgets what was collected.
+func TakeRecovered() []Recovered {
+	recMu.Lock()
+	defer recMu.Unlock()
+	out := recs
+	recs = nil
+	return out
+}
